@@ -188,6 +188,11 @@ def analyse(ctx, run, bools, reports):
                         f'the histogram step failed on the constant column {flat_big[0]} = {next(iter(cols[outputs.index(flat_big[0])]))} '
                         f'({len(rows)} row(s)): {run.main_error}; no JSON summary', inp=_inp(run), expected='text and JSON statistics of the rows',
                         observed=run.main_error)
+        elif run.main_error is None and (run.json_text is None or run.stray_json):
+            ctx.violate('property', 'summary:json-not-beside-result-file',
+                        f'the run completed, rows and text summary are in {run.result_path.rsplit("/", 1)[-1]}, but its JSON summary is '
+                        f'{"missing" if run.json_text is None else "present"} and JSON files were written elsewhere: {run.stray_json}',
+                        inp=_inp(run), expected='<result file>.json and no other summary', observed=run.stray_json)
         elif run.main_error or run.json_text is None:
             ctx.violate('property', 'summary:crash', f'the summary step failed although every output was found: {run.main_error}', inp=_inp(run),
                         observed=run.main_error)
@@ -244,6 +249,7 @@ def specs(ctx):
                ('Reservoir Porosity', 'normal', [97, 3])]
     out = [dict(name='contended', W=16, st=mc.make_settings(rnd, 24 if q else 300)),
            dict(name='serial', W=1, st=mc.make_settings(rnd, 6 if q else 60)),
+           dict(name='named', W=2, st=mc.make_settings(rnd, 6 if q else 30, output_file='{JOBDIR}/named_by_settings/MC_named.txt')),
            dict(name='failing', W=2, st=mc.make_settings(rnd, 20 if q else 200, inputs=failing, n_outputs=3)),
            dict(name='geophires', W=3, st=geo_st + f'ITERATIONS, {5 if q else 24}\n', program='GEOPHIRES', base=geo)]
     # a row longer than the buffer of the result-file object (st_blksize, 4096): 24 sampled inputs with 190-character names
